@@ -74,16 +74,17 @@ def guardedDot (win : Bool) : Re :=
   .cat (.look true (.cat (.cat (.lit '.') (.opt (.cls false [.chr '.' false]))) (pathEop win)))
        (.lit '.')
 
-/-- `_NO_NIX_DIR` / `RE_NO_DIR` : `^(?:.*?(?:/\.{1,2}/*|/)|\.{1,2}/*)$` (compiled with no flags) -/
+/-- `_NO_NIX_DIR` / `RE_NO_DIR` : `^(?s:.*?(?:/\.{1,2}/*|/)|\.{1,2}/*)$` (compiled with no flags;
+    the scoped `(?s:` — so that `.*?` crosses a newline — is the D18 repair) -/
 def noNixDir : Re :=
-  .cat .bos (.cat (.grp (.alt
+  .cat .bos (.cat (.flags true false (.alt
       (.cat (.star true .any)
         (.grp (.alt (.cat (.cat (.lit '/') (.rep 1 2 (.lit '.'))) (.star false (.lit '/'))) (.lit '/'))))
       (.cat (.rep 1 2 (.lit '.')) (.star false (.lit '/')))))
     .eos)
-/-- `_NO_WIN_DIR` / `RE_WIN_NO_DIR` -/
+/-- `_NO_WIN_DIR` / `RE_WIN_NO_DIR` : `^(?s:.*?(?:[\\/]\.{1,2}[\\/]*|[\\/])|\.{1,2}[\\/]*)$` -/
 def noWinDir : Re :=
-  .cat .bos (.cat (.grp (.alt
+  .cat .bos (.cat (.flags true false (.alt
       (.cat (.star true .any)
         (.grp (.alt (.cat (.cat (sep true) (.rep 1 2 (.lit '.'))) (.star false (sep true))) (sep true))))
       (.cat (.rep 1 2 (.lit '.')) (.star false (sep true)))))
